@@ -51,6 +51,37 @@ type scenario struct {
 	// AttachExt attaches a receive extension (wsflate.MessageState) to the Reader although the
 	// state does not say "extended": reserved bits must still be refused by the header check.
 	AttachExt bool
+	// Announce: when non-zero the offending frame's header announces this many payload bytes
+	// although only len(Payload) follow (the reader must decide on the header alone).
+	Announce int64
+}
+
+// wire renders the stream; the offending frame's header announces s.Announce bytes if set.
+func (s scenario) wire() []byte {
+	if s.Announce == 0 || s.Bad < 0 {
+		return ref.EncodeAll(s.Frames)
+	}
+	b := ref.EncodeAll(s.Frames[:s.Bad])
+	f := s.Frames[s.Bad]
+	h := f.H
+	h.Length = s.Announce
+	b = append(b, ref.EncodeHeader(h)...)
+	if h.Masked {
+		b = append(b, ref.Mask(f.Payload, h.Mask, 0)...)
+	} else {
+		b = append(b, f.Payload...)
+	}
+	return append(b, ref.EncodeAll(s.Frames[s.Bad+1:])...)
+}
+
+func (s scenario) layout() (start, hdrEnd []int) {
+	start, hdrEnd = layout(s.Frames)
+	if s.Announce != 0 && s.Bad >= 0 {
+		h := s.Frames[s.Bad].H
+		h.Length = s.Announce
+		hdrEnd[s.Bad] = start[s.Bad] + ref.HeaderLen(h)
+	}
+	return
 }
 
 func (s scenario) exts() []wsutil.RecvExtension {
@@ -77,7 +108,7 @@ func (s scenario) state() ws.State {
 func (s scenario) describe() interface{} {
 	return map[string]interface{}{
 		"entry": s.Entry, "side": s.Side.String(), "extended": s.Extended, "limit": s.Limit, "bad_index": s.Bad,
-		"broken": s.Broken.String(), "too_large": s.TooLarge, "chunks": s.Chunks, "bufsize": s.BufSize, "frames": ref.Describe(s.Frames), "attach_ext": s.AttachExt,
+		"broken": s.Broken.String(), "too_large": s.TooLarge, "chunks": s.Chunks, "bufsize": s.BufSize, "frames": ref.Describe(s.Frames), "attach_ext": s.AttachExt, "offending_frame_announces": s.Announce,
 	}
 }
 
@@ -151,9 +182,9 @@ func openStart(valid []ref.Frame) int {
 // entry: wsutil.Reader
 
 func runReader(s scenario) error {
-	data := ref.EncodeAll(s.Frames)
+	data := s.wire()
 	src := tx.NewSrc(data, s.Chunks)
-	_, hdrEnd := layout(s.Frames)
+	_, hdrEnd := s.layout()
 	idle := 2*len(s.Frames) + 4
 	valid := s.Frames
 	if s.Bad >= 0 {
@@ -262,7 +293,7 @@ func runReader(s scenario) error {
 // entry: ReadMessage
 
 func runReadMessage(s scenario) error {
-	src := tx.NewSrc(ref.EncodeAll(s.Frames), s.Chunks)
+	src := tx.NewSrc(s.wire(), s.Chunks)
 	valid := s.Frames[:s.Bad]
 	var want []wsutil.Message
 	os := openStart(valid)
@@ -311,7 +342,7 @@ func sameMessages(got, want []wsutil.Message, prefixOK bool) error {
 // entry: ReadData
 
 func runReadData(s scenario) error {
-	src := tx.NewSrc(ref.EncodeAll(s.Frames), s.Chunks)
+	src := tx.NewSrc(s.wire(), s.Chunks)
 	rw := tx.RW{Reader: src, Writer: tx.NewRec()}
 	for _, e := range ref.Events(s.Frames[:s.Bad]) {
 		if e.Kind != "msg" {
@@ -347,7 +378,7 @@ func runReadData(s scenario) error {
 // entry: the type-filtering ReadData variants (unwanted messages are discarded)
 
 func runReadFiltered(s scenario) error {
-	src := tx.NewSrc(ref.EncodeAll(s.Frames), s.Chunks)
+	src := tx.NewSrc(s.wire(), s.Chunks)
 	rw := tx.RW{Reader: src, Writer: tx.NewRec()}
 	want := ws.OpText
 	if s.Entry == "ReadBinary" {
@@ -399,7 +430,7 @@ func runReadFiltered(s scenario) error {
 // entry: wsutil.Reader where every message is discarded (optionally after a partial read)
 
 func runReaderDiscard(s scenario) error {
-	src := tx.NewSrc(ref.EncodeAll(s.Frames), s.Chunks)
+	src := tx.NewSrc(s.wire(), s.Chunks)
 	rd := &wsutil.Reader{Source: src, State: s.state(), Extensions: s.exts()}
 	valid := s.Frames[:s.Bad]
 	os := openStart(valid)
@@ -434,7 +465,7 @@ func runReaderDiscard(s scenario) error {
 // entry: wsutil.NextReader per message (a fresh Reader each time; interleaved
 // control frames are dropped without notice, as documented).
 func runNextReader(s scenario) error {
-	src := tx.NewSrc(ref.EncodeAll(s.Frames), s.Chunks)
+	src := tx.NewSrc(s.wire(), s.Chunks)
 	valid := s.Frames[:s.Bad]
 	os := openStart(valid)
 	idle := 2*len(s.Frames) + 4
@@ -862,4 +893,76 @@ func TestLargeScale(t *testing.T) {
 	}
 	hx.EvalN(n)
 	hx.Part("large scale: valid part {1 MiB+1 frame, open 2 MiB+3 fragment, open 300-fragment message, 400 messages} x 5 offending frames x 2 sides x 5 entry points x chunk{all,4093}", int64(n), true)
+}
+
+// TestAnnouncedLengths: the offending frame is offending by its ANNOUNCED length
+// alone (a control frame announcing more than 125 bytes, a data frame announcing
+// more than the size limit), over the whole range of the 16- and 64-bit length
+// forms, with only three payload bytes actually present: the decision must be
+// taken on the header.
+func TestAnnouncedLengths(t *testing.T) {
+	n := 0
+	announces := []int64{126, 127, 65535, 65536, 1<<31 - 1, 1 << 31, 1<<32 - 1, 1 << 32, 1<<32 + 3, 2<<32 + 3, 1<<40 + 125, 1 << 62, 1<<63 - 1}
+	for _, side := range []ref.Side{ref.SideServer, ref.SideClient} {
+		masked := side == ref.SideServer
+		mk := func(op byte, fin bool, k int, p []byte) ref.Frame {
+			h := ref.Header{Fin: fin, Op: op, Masked: masked}
+			if masked {
+				h.Mask = [4]byte{byte(k), 0x21, 0x43, 0x65}
+			}
+			return ref.Frame{H: h, Payload: p}
+		}
+		prefixes := [][]ref.Frame{
+			nil,
+			{mk(ref.OpText, false, 1, []byte("ab"))},
+			{mk(ref.OpBinary, true, 2, []byte("xyz")), mk(ref.OpPing, true, 3, []byte("p"))},
+		}
+		for pi, prefix := range prefixes {
+			_, _, frag := ref.Validate(prefix, side, false)
+			for _, a := range announces {
+				// (1) control frames announcing more than 125 bytes
+				for _, op := range []byte{ref.OpPing, ref.OpPong, ref.OpClose} {
+					bad := mk(op, true, 7, markerPayload(3))
+					h := bad.H
+					h.Length = a
+					broken := ref.BrokenRules(h, ref.EndState{Side: side, Fragmented: frag})
+					frames := append(append(append([]ref.Frame(nil), prefix...), bad), mk(ref.OpBinary, true, 8, markerPayload(4)))
+					for _, entry := range []string{"Reader", "Reader+Discard", "ReadMessage", "ReadData", "NextReader"} {
+						for _, chunks := range [][]int{nil, {1}} {
+							s := scenario{Frames: frames, Bad: len(prefix), Broken: broken, Side: side, Chunks: chunks, Entry: entry, Announce: a}
+							n++
+							hx.NonTrivial(hx.Hash("announce-ctl", pi, a, op, entry, int(side), len(chunks)), s.describe)
+							if err := run(s); err != nil {
+								hx.Failf(t, s.describe(), "control frame announcing %d bytes: %v", a, err)
+								return
+							}
+						}
+					}
+				}
+				// (2) data frames announcing more than the size limit
+				for _, limit := range []int64{5, 1024, 65535} {
+					if a <= limit {
+						continue
+					}
+					op := byte(ref.OpBinary)
+					if frag {
+						op = ref.OpCont
+					}
+					bad := mk(op, true, 9, markerPayload(3))
+					frames := append(append(append([]ref.Frame(nil), prefix...), bad), mk(ref.OpBinary, true, 8, markerPayload(4)))
+					for _, chunks := range [][]int{nil, {1}} {
+						s := scenario{Frames: frames, Bad: len(prefix), TooLarge: true, Limit: limit, Side: side, Chunks: chunks, Entry: "Reader", Announce: a}
+						n++
+						hx.NonTrivial(hx.Hash("announce-size", pi, a, limit, int(side), len(chunks)), s.describe)
+						if err := run(s); err != nil {
+							hx.Failf(t, s.describe(), "data frame announcing %d bytes with MaxFrameSize %d: %v", a, limit, err)
+							return
+						}
+					}
+				}
+			}
+		}
+	}
+	hx.EvalN(n)
+	hx.Part("offending by announced length: 13 announced lengths up to 2^63-1 x {ping,pong,close | data frame over MaxFrameSize 5/1024/65535} x 3 prefixes x 2 sides x entry points x chunk{all,1}", int64(n), true)
 }
